@@ -113,23 +113,31 @@ Definition c_scale (dm : dmt) (x : F32.t) : nat :=
 Definition seq_rows (C L : nat) : nat := (L + (C - 1)) / C.
 
 (* SPEC of stripe + configure_wrap(wrap): R + wrap rows of C cells, cell (r, c) holds
-   symbol number c*R + r of the sequence, the wildcard K-1 when that is >= L *)
+   symbol number c*R + r of the sequence, the wildcard K-1 when that is >= L.
+   Computed column-wise (column c is the suffix of the sequence starting at c*R),
+   which is the same thing (smatrix_cell in ConcreteProofs.v) and much cheaper on
+   unary numbers. *)
 Definition smatrix (K C : nat) (sq : list nat) (wrap : nat) : list (list nat) :=
   let R := seq_rows C (length sq) in
-  map (fun r => map (fun c => nth (c * R + r) sq (K - 1)) (seq 0 C)) (seq 0 (R + wrap)).
+  let cols := map (fun c => skipn (c * R) sq) (seq 0 C) in
+  map (fun r => map (fun col => nth r col (K - 1)) cols) (seq 0 (R + wrap)).
 
-(* Index<usize> for StripedSequence.  `self.data.rows() - self.wrap` cannot underflow:
-   wrap rows are part of the matrix. *)
+(* Index<usize> for StripedSequence: col = index / rows, row = index % rows with
+   rows = self.data.rows() - self.wrap (cannot underflow: the wrap rows are part of
+   the matrix).  Quotient and remainder come from one call of Nat.divmod, which is
+   how Nat.div and Nat.modulo are defined (seq_index_divmod in ConcreteProofs.v). *)
 Definition seq_index (sm : list (list nat)) (wrap idx : nat) : res nat :=
-  let rows := length sm - wrap in
-  if rows =? 0 then Panic 20
-  else
-    let col := idx / rows in
-    let rw := idx mod rows in
-    match nth_error sm rw with
-    | None => Panic 21
-    | Some srow => match nth_error srow col with None => Panic 21 | Some x => Ok x end
-    end.
+  match length sm - wrap with
+  | O => Panic 20
+  | S y =>
+      let qu := Nat.divmod idx y 0 y in
+      let col := fst qu in
+      let rw := y - snd qu in
+      match nth_error sm rw with
+      | None => Panic 21
+      | Some srow => match nth_error srow col with None => Panic 21 | Some x => Ok x end
+      end
+  end.
 
 (* ScoringMatrix::score_position: score = 0.0; for (j, row) in rows: score += row[s[pos + j]] *)
 Fixpoint score_pos_from (sm : list (list nat)) (wrap : nat) (rows : list (list F32.t))
@@ -180,7 +188,8 @@ Definition drow (C : nat) (sm : list (list nat)) (ddata : list (list nat)) (r : 
 (* [dtab] caches [drow r] for the sequence rows (a pure function of r): entry r is
    [drow .. r]; rows outside the table are computed directly (tab_get_eq in
    ConcreteProofs.v: the cache never changes a result) *)
-Definition tab_get {A} (f : nat -> A) (tab : list A) (i : nat) : A := nth i tab (f i).
+Definition tab_get {A} (f : nat -> A) (tab : list A) (i : nat) : A :=
+  match nth_error tab i with Some x => x | None => f i end.
 
 Definition score_rows_body (C : nat) (sm : list (list nat)) (ddata : list (list nat))
            (dtab : list (res (list nat))) (a e : nat) : res dmatrix :=
